@@ -9,6 +9,9 @@
    rejected by LLVM (operands of different widths) - C02's business; [LCrash] the compiler aborts with an
    error (duplicate `case c.ddpinttyp` in UN_NEGATE); [LNone] not a scalar operator (runtime call).
 
+   (llir prints integer constants without a type, so a mixed-width instruction whose wide operand is a LITERAL, e.g.
+   `shl i8 %x, 3`, is accepted by LLVM and computes the right value; the check records these runs as
+   reject_predicted_but_ran.)
    The model mirrors the code that EXISTS: Byte durch Kommazahl converts the Byte with sitofp (compiler.go
    1283) - see OpsProofs.div_byte_komma_refuted. *)
 From Coq Require Import ZArith Bool.
